@@ -1,7 +1,7 @@
 (** Executable comparison functions of the C05 / C10 correspondence checks (cases rendered by props/c05.py and
     props/c10.py, evaluated with vm_compute). *)
 From Coq Require Import List NArith ZArith Bool Arith Uint63.
-From V Require Import Common.Bytes Gguf.Model.
+From V Require Import Common.Bytes Gguf.Model Gguf.SeekerModel.
 Import ListNotations.
 Open Scope N_scope.
 
@@ -98,9 +98,14 @@ Definition is_perm_of_range (order : list nat) (n : nat) : bool :=
 Definition model_order (blocks : list Z) : list nat :=
   map fst (sort_ts (fun p : nat * Z => snd p) (combine (seq 0 (length blocks)) blocks)).
 
+(** the comparator is a consistent order on these block numbers unless negative, zero and positive ones are all present *)
+Definition consistent_blocks (blocks : list Z) : bool :=
+  negb (existsb (fun b => (b <? 0)%Z) blocks && existsb (fun b => (b =? 0)%Z) blocks && existsb (fun b => (0 <? b)%Z) blocks).
+(** up to 20 tensors SortStableFunc IS the modelled insertion sort; beyond, a stable sort is determined by the comparator when
+    the comparator is consistent - then the observed order must be the model's as well; otherwise it must be a permutation *)
 Definition chk_order (blocks : list Z) (order : list nat) : bool :=
   is_perm_of_range order (length blocks) &&
-  ((20 <? length blocks)%nat || eqb_nats (model_order blocks) order).
+  (((20 <? length blocks)%nat && negb (consistent_blocks blocks)) || eqb_nats (model_order blocks) order).
 
 (** the bytes the implementation wrote: given exactly, or (for long outputs, whose literals are slow to elaborate)
     by length and a polynomial hash modulo 2^61-1 computed the same way by the renderer *)
@@ -119,6 +124,9 @@ Definition pat (seed len : N) : list N :=
 Definition chk_rt (fixed : bool) (kv : wkvs) (ts : list tensor) (blocks : list Z) (order : list nat) (out : obytes)
            (maxArr : Z) (o : obs) : bool :=
   let w := write_ordered fixed kv (pick ts order) in
+  (* the block numbers the implementation reports are those of the Sscanf model *)
+  (fix eqz (a b : list Z) : bool := match a, b with [], [] => true | x :: a', y :: b' => (x =? y)%Z && eqz a' b' | _, _ => false end)
+    (map tensor_block ts) blocks &&
   chk_order blocks order && eqb_obytes w out && chk_decode w maxArr o.
 
 Definition chk_kind (kind ts bs : N) : bool := (type_size kind =? ts) && (block_size kind =? bs).
@@ -130,10 +138,12 @@ Definition meter_covers (model real : N) : bool := real <=? 2 * model + 65536.
 
 (** accessor results reported by the harness for a decoded file *)
 Record accs := mkAcc { a_arch : str; a_kind : str; a_ftype : N; a_tmpl : str; a_params : N }.
+Definition eqb_ares {A} (eq : A -> A -> bool) (r : ares A) (x : A) : bool := match r with AOk y => eq y x | APanic _ => false end.
 Definition chk_accs (m : kvs) (a : accs) : bool :=
-  eqb_str (acc_architecture m) (a_arch a) && eqb_str (acc_kind m) (a_kind a) && (acc_file_type m =? a_ftype a) &&
-  eqb_str (acc_chat_template m) (a_tmpl a) &&
-  match kv_get k_param_count m with Some (VNum 10 x) => x =? a_params a | _ => false end.
+  eqb_ares eqb_str (r_architecture m) (a_arch a) && eqb_ares eqb_str (r_kind m) (a_kind a) && eqb_ares N.eqb (r_file_type m) (a_ftype a) &&
+  eqb_ares eqb_str (r_chat_template m) (a_tmpl a) && eqb_ares N.eqb (r_parameter_count m) (a_params a) &&
+  (* the total versions used elsewhere agree *)
+  eqb_str (acc_architecture m) (a_arch a) && eqb_str (acc_kind m) (a_kind a) && (acc_file_type m =? a_ftype a) && eqb_str (acc_chat_template m) (a_tmpl a).
 
 Definition chk_decode10_from (base : Z) (bytes : list N) (maxArr : Z) (o : obs) (real : N) (a : option accs) : bool :=
   chk_decode_from base bytes maxArr o && meter_covers (d_alloc (decode_from base bytes maxArr)) real &&
@@ -162,3 +172,33 @@ Definition chk_file_seek (bytes : list N) (maxArr : Z) : bool :=
   end.
 
 Definition chk_detect (b : list N) (code : N) : bool := detect_content_type b =? code.
+
+(** Tensor.block = block_of: per name, and exhaustively over prefix + every string of length 0..maxlen over an alphabet
+    (same enumeration order and digest as harness op block_all) *)
+Definition chk_block (name : str) (b : Z) : bool := (block_of name =? b)%Z.
+Fixpoint enum_strs (alpha : list N) (n : nat) : list str :=
+  match n with O => [[]] | S k => flat_map (fun a => map (cons a) (enum_strs alpha k)) alpha end.
+Definition hash_step (h x : N) : N := (h * 1000003 + x + 1) mod 2305843009213693951.
+Definition chk_block_all (prefix : str) (alpha : list N) (maxlen : nat) (n h : N) : bool :=
+  let names := flat_map (fun k => map (app prefix) (enum_strs alpha k)) (seq 0 (S maxlen)) in
+  (N.of_nat (length names) =? n) &&
+  (fold_left (fun acc nm => hash_step acc (Z.to_N (block_of nm mod 18446744073709551616) mod 2305843009213693951)) names 7 =? h).
+
+(** type.go: fileType(t).String() and ParseFileType of that / of an arbitrary string (-1 = error) *)
+Definition chk_ftype (t : N) (name : str) (parsed : Z) : bool :=
+  eqb_str (file_type_name t) name &&
+  (match parse_file_type name with Some v => Z.of_N v | None => (-1)%Z end =? parsed)%Z.
+Definition chk_parse (s : str) (parsed : Z) : bool :=
+  (match parse_file_type s with Some v => Z.of_N v | None => (-1)%Z end =? parsed)%Z.
+
+(** buffer_seeker.go: a sequence of io.ReadFull / Seek on the real BufferedSeeker over a bytes.Reader gives what the
+    logical-position model gives *)
+Definition eqb_sres (a b : sres) : bool :=
+  match a, b with
+  | RRead x e, RRead y f => eqb_str x y && (e =? f)
+  | RSeek p ok, RSeek q ok' => Bool.eqb ok ok' && (negb ok || (p =? q)%Z)
+  | _, _ => false
+  end.
+Fixpoint eqb_sress (a b : list sres) : bool :=
+  match a, b with [], [] => true | x :: a', y :: b' => eqb_sres x y && eqb_sress a' b' | _, _ => false end.
+Definition chk_bseek (data : list N) (ops : list sop) (obs : list sres) : bool := eqb_sress (abs_run data 0 ops) obs.
